@@ -348,6 +348,10 @@ class _BaseSemilocalPlan:
 
 class SemilocalPlan(_BaseSemilocalPlan):
     def get_feat(self, rho):
+        if rho.ndim != 3 or rho.shape[1] < (5 if self.level == "MGGA" else 4):
+            raise ValueError(
+                "rho must have shape (nspin, >=4 (GGA) or >=5 (MGGA), ngrids)"
+            )
         sigma = np.einsum("sx...,sx...->s...", rho[:, 1:4], rho[:, 1:4])
         if self.level == "MGGA":
             tau = rho[:, 4]
